@@ -153,16 +153,16 @@ theorem cellAt_applymask (t : T α) (m : List (List Bool)) :
   | none => simp [hti]
   | some row =>
     cases hmi : m[x.1]? with
-    | none => simp [hti, hmi]
+    | none => simp [hmi]
     | some mrow =>
-      simp only [hti, hmi, Option.bind_some, Option.map_some]
+      simp only [hti, hmi, Option.bind_some]
       rw [List.getElem?_zipWith]
       cases hr : row[x.2]? with
-      | none => simp [hr]
+      | none => simp
       | some o =>
         cases hm : mrow[x.2]? with
-        | none => simp [hr, hm]
-        | some b => cases b <;> simp [hr, hm]
+        | none => simp
+        | some b => cases b <;> simp
 
 /-- `HC_damp`: its mask is the cell criterion … -/
 theorem maskAt_hcDamp (t : T Rat) (mx : Rat) (x : Nat × Nat) :
